@@ -6,6 +6,7 @@ import (
 	"time"
 
 	"github.com/KevoDB/kevo/pkg/config"
+	"github.com/KevoDB/kevo/pkg/verifhook"
 )
 
 // CompactionCoordinatorOptions holds configuration options for the coordinator
@@ -211,6 +212,9 @@ func (c *DefaultCompactionCoordinator) compactionWorker() {
 
 // runCompactionCycle performs a single compaction cycle
 func (c *DefaultCompactionCoordinator) runCompactionCycle() error {
+	verifhook.At("cmp.cycle.begin")
+	defer verifhook.At("cmp.cycle.end")
+
 	// Reload SSTables to get fresh information
 	if err := c.strategy.LoadSSTables(); err != nil {
 		return fmt.Errorf("failed to load SSTables: %w", err)
@@ -280,6 +284,8 @@ func (c *DefaultCompactionCoordinator) TriggerCompaction() error {
 func (c *DefaultCompactionCoordinator) CompactRange(minKey, maxKey []byte) error {
 	c.compactingMu.Lock()
 	defer c.compactingMu.Unlock()
+	verifhook.At("cmp.cycle.begin")
+	defer verifhook.At("cmp.cycle.end")
 
 	// Load current SSTable information
 	if err := c.strategy.LoadSSTables(); err != nil {
